@@ -19,6 +19,8 @@ for r in res:
     x = r["result"]
     names = sorted(o["name"] for o in x["obligations"] if o["status"] == "proved")
     notp = [o["name"] for o in x["obligations"] if o["status"] != "proved"]
+    if x["status"] == "trusted":
+        continue            # an assumed contract (the same function may be proved in another sidecar)
     if x["status"] != "ok" or notp:
         print("NOT RECORDED (not fully proved):", x["key"], x["status"], x.get("reason"), notp[:5]); bad += 1
         exp.pop(x["key"], None)
